@@ -784,6 +784,10 @@ fn step_inner(s: &mut Sess, toks: &[&str]) -> Option<String> {
             s.enc.enable_re_use_label();
             Some(format!("ok | {}", s.fmt_enc()))
         }
+        ["enc_set_crc"] => {
+            s.enc.set_crc_calculator(DefaultCrc {});
+            Some(format!("ok | {}", s.fmt_enc()))
+        }
         ["enc_enable_max", n] => {
             let n: usize = n.parse().ok()?;
             if n > 255 {
